@@ -551,6 +551,8 @@ impl Expression {
         }
 
         let expr = Expression::shr(lhs.clone(), rhs.clone())?;
+        let too_far =
+            Expression::cmpltu(expr_const(rhs.bits() as u64, rhs.bits()), rhs.clone())?;
 
         let mask = if rhs.bits() <= 64 {
             Expression::shl(
@@ -563,6 +565,11 @@ impl Expression {
                 Expression::sub(expr_const(rhs.bits() as u64, rhs.bits()), rhs)?,
             )?
         };
+
+        // A shift amount above the width makes `bits - rhs` wrap, which would
+        // shift the fill out entirely; the fill saturates to all ones instead.
+        let ones: Expression = const_(0, lhs.bits()).sub(&const_(1, lhs.bits()))?.into();
+        let mask = Expression::ite(too_far, ones, mask)?;
 
         Expression::or(
             expr,
